@@ -140,7 +140,7 @@ def CarveSSem (env : CEnv) : CStmt → Bool
         | .ok ce => ce.ty.width == 32 || castOKSem { signed := false, width := 32, group := 1 } ce
         | .error _ => true)
   | .skip _ => true
-  | .exprstmt _ => true
+  | .exprstmt e => CarveESem env.assigned e
   | .ret _ => true
   | .vcall _ _ _ _ => true
 def CarveSsSem (env : CEnv) : List CStmt → Bool
